@@ -77,16 +77,8 @@ func c16Pipeline(c *rt.C, img *source_j5pb.SourceImage, id string, det func() ma
 		return v
 	}
 	var b []byte
-	if c16Stage(c, "source-json", id, det, func() (err error) { b, err = j5codec.NewCodec().ProtoToJSON(out.api.ProtoReflect()); return }) {
-		parse("source-json", b)
-	} else {
-		complete = false
-	}
-	if c16Stage(c, "client-json", id, det, func() (err error) { b, err = j5codec.NewCodec().ProtoToJSON(out.client.ProtoReflect()); return }) {
-		out.clientJSON = parse("client-json", b)
-	} else {
-		complete = false
-	}
+	// the OpenAPI and JDef documents first, from the client API exactly as APIFromSource returned it: the J5 codec
+	// instantiates empty oneof members of the message it encodes, which would hide a nil one from the converters
 	if c16Stage(c, "swagger", id, det, func() error {
 		doc, err := export.BuildSwagger(out.client)
 		if err != nil {
@@ -110,6 +102,16 @@ func c16Pipeline(c *rt.C, img *source_j5pb.SourceImage, id string, det func() ma
 		return err
 	}) {
 		parse("jdef", b)
+	} else {
+		complete = false
+	}
+	if c16Stage(c, "source-json", id, det, func() (err error) { b, err = j5codec.NewCodec().ProtoToJSON(out.api.ProtoReflect()); return }) {
+		parse("source-json", b)
+	} else {
+		complete = false
+	}
+	if c16Stage(c, "client-json", id, det, func() (err error) { b, err = j5codec.NewCodec().ProtoToJSON(out.client.ProtoReflect()); return }) {
+		out.clientJSON = parse("client-json", b)
 	} else {
 		complete = false
 	}
